@@ -165,6 +165,8 @@ def _inst(name, src, expect_error, fam, exp_tokens, safety=False):
     return Inst(name, 'h_ppx.c', defs, safety=safety, units=['token', 'map', 'util'],
                 overrides=['error', 'fatal', 'xmalloc', 'xreallocarray', 'arrayadd', 'arrayaddbuf', 'arraylast'], native_units=['scan', 'expr', 'type', 'eval', 'decl', 'init', 'scope', 'targ', 'attr', 'stmt', 'utf', 'qbe', 'tree'],
                 unwind=max(40, 2 * n + 20), unwindset=UNWINDSET + parselib.map_unwindset(), family=fam, timeout=600, mem_gb=12, files=files,
+                witness=(n < 150),        # the two longest sets take ~3 min per query; the other twins witness the same harness
+
                 bound={'macro set': src, 'raw tokens': len(raw), 'expected tokens (gcc -E)': len(exp_tokens)})
 
 
